@@ -244,4 +244,7 @@ def sg_evaltime(prog: Program) -> RuleResult:
 
 
 def run(prog: Program, tier: str) -> List[RuleResult]:
-    return [sg_register(prog), sg_enum(prog), sg_sweep(prog), sg_evaltime(prog)]
+    from .c03 import domain_cache
+
+    # the census reaches the variable through the caching iterator: an instance dropped from the cache is missing from the range
+    return [sg_register(prog), sg_enum(prog), sg_sweep(prog), sg_evaltime(prog), domain_cache(prog)]
